@@ -28,8 +28,8 @@ LEVEL_TEXT = ('Theorems in coq/theories/Properties/C16.v: collect_charge = per-p
 LEVEL_NOTE = ('Trusted: Coq kernel, extraction, harness; numpy einsum/tile/repeat/broadcasting are modelled and observed '
               'through the tie; Spectrum sampling (scipy interp1d, unit conversion) is outside the model: a spectrum enters '
               'as its exactly interpolated sample vector and spectrum cases are compared to 1e-9. dtype casts are checked in '
-              'the tie only. Known findings: saturation_capacity=0 is treated like None (no clipping); the power cube is built with '
-              'np.power, which is not correctly rounded everywhere, so a DN can be one off where the exact polynomial value is an integer.')
+              'the tie only. Hidden state between calls is outside the pure model: the tie runs sequences of Bayer calls in one '
+              'process (equal frame shape, varying oversample/pattern) and demands every answer to depend on its own arguments only.')
 TRUSTED = ['Coq 8.16.1 kernel (coqc; coqchk in the thorough tier)',
            'extraction with ExtrOcamlBasic only; ocaml/driver.ml',
            'harness/props/c16.py: case codec, Fraction oracle',
@@ -44,7 +44,8 @@ ASSUMPTIONS = ['exact regime: integer photon counts, dyadic efficiencies, intege
 RULE = ('corpus first, then random cases over ops {collect_charge (scalar/vector/Spectrum efficiency in nm/um/angstrom), '
         'collect_charge_bayer (patterns 1x1..4x4 of random R/G/B content, oversample 1..5, flatten on/off, images that are '
         'and are not multiples of pattern*oversample), adc (four gain forms, orders 1..4, negative/saturating inputs, '
-        'warn on/off, dtypes, broadcast and mismatching gain shapes, rank-4 gains), format_bayer_string}; thorough adds all '
+        'warn on/off, dtypes, capacity 0 and negative, broadcast and mismatching gain shapes, rank-4 gains), format_bayer_string, '
+        'sequences of 2..4 Bayer calls on one frame shape with varying oversample/pattern/flatten}; thorough adds all '
         '81 2x2 patterns x oversample 1..5; non-trivial = more than one wavelength / pattern or oversample > 1 / '
         'non-scalar gain or saturation or negative input; distinct by case hash')
 
@@ -209,6 +210,41 @@ def gen_bayer(rng, pk=None, os_=None, pat=None):
     return case
 
 
+def gen_bayer_seq(rng):
+    """several collect_charge_bayer calls in one process on frames of one shape: the answers must not depend on
+    which calls were made before (same pattern with another oversample, same oversample with another pattern)"""
+    r, c = rng.choice([(12, 12), (12, 12), (12, 24), (24, 12), (8, 8), (6, 12)])
+    combos = [(k, o) for k in (1, 2, 3, 4) for o in (1, 2, 3, 4, 5, 6) if r % (k * o) == 0 and c % (k * o) == 0]
+    k = rng.choice([2, 2, 2, 3, 4, 1])
+    oss = [o for kk, o in combos if kk == k]
+    if len(oss) < 2:
+        k = 2
+        oss = [o for kk, o in combos if kk == k]
+    nw = rng.randint(1, 2)
+    wave = rnd_wave(rng, nw)
+    pat = rnd_pattern(rng, k).upper()
+    n = rng.randint(2, 4)
+    calls = []
+    for idx in range(n):
+        t = rng.random()
+        if idx > 0 and t < 0.25:          # another pattern of the same size, same oversample as the previous call
+            p2, o2 = rnd_pattern(rng, k), calls[-1]['os']
+        elif idx > 0 and t < 0.35:        # another pattern size
+            k2, o2 = rng.choice(combos)
+            p2 = rnd_pattern(rng, k2)
+        else:                             # the same pattern, (usually) another oversample
+            p2 = pat if rng.random() < 0.8 else pat.lower()
+            o2 = rng.choice([o for o in oss if not calls or o != calls[-1]['os']] or oss)
+        calls.append({'pattern': p2, 'os': o2, 'flatten': rng.random() < 0.6,
+                      'qr': rnd_qe(rng, wave, ('scalar', 'vec')), 'qg': rnd_qe(rng, wave, ('scalar', 'vec')),
+                      'qb': rnd_qe(rng, wave, ('scalar', 'vec'))})
+    return {'op': 'bayer_seq', 'img': rnd_cube(rng, nw, r, c, hi=9), 'wave': wave, 'unit': 'nm', 'calls': calls}
+
+
+def sub_cases(c):
+    return [dict(call, op='bayer', img=c['img'], wave=c['wave'], unit=c['unit']) for call in c['calls']]
+
+
 def rnd_electrons(rng, r, c, lo, hi, frac=True):
     den = rng.choice([1, 1, 2, 4]) if frac else 1
     return [[str(F(rng.randint(lo * den, hi * den), den)) for _ in range(c)] for _ in range(r)]
@@ -293,6 +329,8 @@ def generate(rng, tier):
             yield gen_adc(rng)
         else:
             yield gen_fmt(rng)
+    for _ in range(50 if tier == 'quick' else 500):
+        yield gen_bayer_seq(rng)
     if tier == 'thorough':
         for pat in itertools.product('RGB', repeat=4):
             for os_ in range(1, 6):
@@ -306,6 +344,8 @@ def classify(c):
         return f'bayer/k{int(math.isqrt(len(c["pattern"])))}/os{c["os"]}'
     if c['op'] == 'adc':
         return f'adc/gain{c["gain"]["ndim"]}'
+    if c['op'] == 'bayer_seq':
+        return f'bayer_seq/{len(c["calls"])}calls'
     return c['op']
 
 
@@ -314,6 +354,8 @@ def nontrivial(c):
         return len(c['wave']) > 1
     if c['op'] == 'bayer':
         return len(c['pattern']) > 1 or c['os'] > 1
+    if c['op'] == 'bayer_seq':
+        return len({(x['pattern'].upper(), x['os']) for x in c['calls']}) > 1
     if c['op'] == 'adc':
         return c['gain']['ndim'] != 0 or c['sat'] is not None or any(F(v) < 0 for row in c['img'] for v in row)
     return True
@@ -345,6 +387,14 @@ def encode(c):
             return ([2] + enc_img(c['img']) + [len(c['wave'])] + enc_qe(c['qr'], c['wave']) + enc_qe(c['qg'], c['wave'])
                     + enc_qe(c['qb'], c['wave']) + C.enc_list(pattern_codes(c['pattern']), lambda x: [x])
                     + [c['os'], 1 if c['flatten'] else 0])
+        if op == 'bayer_seq':
+            out = [5, len(c['calls'])]
+            for sc in sub_cases(c):
+                e1 = encode(sc)
+                if e1 is None:
+                    return None
+                out += e1[1:]
+            return out
         if op == 'adc':
             a = np.asarray(c['img'], dtype=object)
             e = [3, a.shape[0], a.shape[1]] + [t for v in a.ravel() for t in C.enc_q(F(v))]
@@ -366,6 +416,15 @@ def read_qarr(rd):
 
 
 def decode(c, ints):
+    if c['op'] == 'bayer_seq':
+        rd = C.Reader(ints, 1)
+        assert rd.z() == 0
+        out = []
+        for sc in sub_cases(c):
+            n = rd.z()
+            out.append(decode(sc, [rd.z() for _ in range(n)]))
+        assert rd.done()
+        return {'seq': out}
     rd = C.Reader(ints, 1)
     st = rd.z()
     if st == 1:
@@ -395,6 +454,8 @@ def run_impl(c):
     lentil = C.import_lentil()
     D = lentil.detector
     op = c['op']
+    if op == 'bayer_seq':        # the calls of the sequence, in order, in this process
+        return {'seq': [run_impl(sc) for sc in sub_cases(c)]}
     try:
         if op == 'collect':
             img = np_img(c['img'])
@@ -505,6 +566,12 @@ def pinned(c):
 
 def compare(c, impl, model):
     op = c['op']
+    if op == 'bayer_seq':
+        for n, (sc, a, b) in enumerate(zip(sub_cases(c), impl['seq'], model['seq'])):
+            m = compare(sc, a, b)
+            if m:
+                return f'call {n + 1} of the sequence: {m}'
+        return None
     pin = pinned(c)
     if pin is None:
         return None
@@ -605,6 +672,13 @@ def adc_expected(c):
 
 def oracle(c, impl):
     op = c['op']
+    if op == 'bayer_seq':
+        for n, (sc, a) in enumerate(zip(sub_cases(c), impl['seq'])):
+            m = oracle(sc, a)
+            if m:
+                return (f'call {n + 1} of {len(c["calls"])} (pattern {sc["pattern"]!r}, oversample {sc["os"]}) after calls '
+                        f'{[(x["pattern"], x["os"]) for x in c["calls"][:n]]} on the same frame shape: {m}')
+        return None
     exact = not has_spectrum(c)
     if op in ('bayer', 'adc') and pinned(c) == 'error':
         what = 'pattern string' if op == 'bayer' else 'gain'
@@ -696,54 +770,3 @@ def oracle(c, impl):
         exp = [[CODES[s[i * k + j]] for j in range(k)] for i in range(k)]
         return None if impl['codes'] == exp and impl['k'] == k else f'format_bayer_string: {impl} expected {exp}'
     return None
-
-
-# ------------------------------------------------------------------ known findings
-def pow_rounding_only(c, impl):
-    """every difference between the returned frame and the prescribed one is a single DN at a pixel whose exact
-    polynomial value lies within rounding distance of an integer, for a polynomial of order >= 2 (the power cube is built
-    with np.power, which is not correctly rounded on every platform: e.g. 13.0**4 = 28560.999999999996 with AVX-512)"""
-    exp = adc_expected(c)
-    if exp is None or 'err' in impl or impl['shape'] != [len(exp), len(exp[0])]:
-        return False
-    sat = None if c['sat'] is None else F(c['sat'])
-    ndiff = 0
-    for i, row in enumerate(exp):
-        for j, want in enumerate(row):
-            got = impl['dn'][i][j]
-            if got == want:
-                continue
-            coefs = gain_coefs(c['gain'], i, j)
-            e = F(c['img'][i][j]) if sat is None else min(F(c['img'][i][j]), sat)
-            if len(coefs) < 2 or abs(got - want) != 1:
-                return False
-            v = poly_no_const(coefs, e)
-            mag = sum(abs(cf) * abs(e) ** (len(coefs) - k) for k, cf in enumerate(coefs))
-            if abs(v - round(v)) > Fraction(1, 10 ** 12) * (1 + mag):
-                return False
-            ndiff += 1
-    if ndiff == 0:
-        return False
-    should_warn = c['warn'] and sat is not None and any(F(v) > sat for row in c['img'] for v in row)
-    return (impl['warned'] == should_warn and impl['input_unchanged']
-            and (c['dtype'] is None or impl['dtype'] == str(np.dtype(c['dtype']))))
-
-
-def known_match(f, c, impl):
-    if f['id'] == 'C16-zero-capacity':
-        return c['op'] == 'adc' and c['sat'] is not None and F(c['sat']) == 0
-    if f['id'] == 'C16-power-rounding':
-        return c['op'] == 'adc' and not c['int_img'] and pow_rounding_only(c, impl)
-    return False
-
-
-def replay_known(f):
-    if f['id'] == 'C16-zero-capacity':
-        lentil = C.import_lentil()
-        out = lentil.detector.adc(np.array([[5.0]]), 1.0, saturation_capacity=0)
-        return float(out[0, 0]) == 5.0
-    if f['id'] == 'C16-power-rounding':
-        lentil = C.import_lentil()      # platform dependent: shown only where np.power rounds 13**4 down
-        out = lentil.detector.adc(np.array([[13.0]]), [1.0, 0.0, 0.0, 0.0])
-        return float(out[0, 0]) == 28560.0
-    return False
